@@ -70,6 +70,19 @@ def setup():
                     best = z3.If(tot > best, tot, best)
         return [(p, Num(best))]
     v.use("ComputeBounds")   # not called by the current body; keeps a refactoring that consults the bounds analysable
+    PREP = z3.Function("prepared_geometry", GS, z3.RealSort(), z3.RealSort(), GS)
+
+    def prepare(ex, p, args, kw, node):
+        """_prepare_geometry under its C06 contract (not called by the current body of match_geometries either): some valid
+        geometry determined by (geometry, buffers)"""
+        g = args[0]
+        tb = kw.get("time_buffer", args[1] if len(args) > 1 else Num(0.01))
+        fb = kw.get("freq_buffer", args[2] if len(args) > 2 else Num(100))
+        ex.trace["assumed"].add("_prepare_geometry contract (C06): a valid geometry determined by the geometry and the buffers")
+        r = Opq("Geometry", PREP(g.t, tb.real(), fb.real()))
+        (q, ok), = v.handlers["contracts.geometry.valid_geometry"](ex, p, [r], {}, node)
+        return [(q.assume(ok.t), r)]
+    v.handlers["soundevent.evaluation.affinity._prepare_geometry"] = prepare
     v.handlers["soundevent.evaluation.affinity.compute_affinity"] = affinity
     v.handlers["scipy.optimize.linear_sum_assignment"] = lsa
     v.handlers["contracts.matching.best_pairing_sum"] = best_sum
